@@ -17,6 +17,9 @@ func main() {
 		if len(os.Args) < 4 {
 			fatal("usage: gosym check <ID> <quick|thorough>")
 		}
+		if os.Args[2] == "C20" {
+			os.Exit(runC20(os.Args[3]))
+		}
 		os.Exit(runCheck(os.Args[2], os.Args[3]))
 	case "concrete":
 		os.Exit(runConcrete(os.Args[2:]))
